@@ -91,8 +91,10 @@ func (p property) get(this *object) Value {
 }
 
 func (p property) isAccessorDescriptor() bool {
-	setGet, test := p.value.(propertyGetSet)
-	return test && (setGet[0] != nil || setGet[1] != nil)
+	// Also with both halves nil: an accessor property whose getter and
+	// setter are undefined is still an accessor property.
+	_, test := p.value.(propertyGetSet)
+	return test
 }
 
 func (p property) isDataDescriptor() bool {
